@@ -640,6 +640,14 @@ class Ctx:
                     raise ExtractionBreak('iterator %s re-based from %s to %s' % (l[1], ob, nb))
             if nb and not ob:
                 self.bases[l[1]] = nb
+        if l[0] == 'index' and op == '=':
+            st_ = self.strip_ref(self.typeof(l[1]))
+            if (st_, 'operator[]=') in self.struct_methods:
+                # proxy assignment `v[i] = x` of a container class rendered as a setter call
+                fi = self.struct_methods[(st_, 'operator[]=')]
+                self.fire('index_assign_operator')
+                self.count_call(fi.cname)
+                return '%s(%s, %s, %s)' % (fi.cname, self.em_addr(l[1]), self.em(l[2]), self.em(r))
         if r[0] == 'init' and r[1] is None:
             # x = {a, b}  ->  compound literal of the lhs type
             return '%s %s (%s){%s}' % (self.em(l), op, self.ctype(lt), ', '.join(self.em(x) for x in r[2]))
